@@ -515,6 +515,29 @@ def wrapper(ctx, obs, rule='FWD'):
                     if isinstance(st, ast.Assign) and isinstance(st.targets[0], ast.Name) and isinstance(st.value, ast.Constant) \
                             and st.value.value in (0, 1):
                         cv_local = st.targets[0].id
+        def _aliases(name):
+            """names whose value `name` may carry through plain copies: x = y, (x, y) = (a, b)"""
+            out, todo = {name}, [name]
+            while todo:
+                cur = todo.pop()
+                for st in ast.walk(f.node):
+                    if not isinstance(st, ast.Assign) or len(st.targets) != 1:
+                        continue
+                    t, v = st.targets[0], st.value
+                    pairs = []
+                    if isinstance(t, ast.Name) and isinstance(v, ast.Name):
+                        pairs = [(t.id, v.id)]
+                    elif isinstance(t, (ast.Tuple, ast.List)) and isinstance(v, (ast.Tuple, ast.List)) and len(t.elts) == len(v.elts):
+                        pairs = [(a.id, b.id) for a, b in zip(t.elts, v.elts) if isinstance(a, ast.Name) and isinstance(b, ast.Name)]
+                    for a, b in pairs:
+                        if a == cur and b not in out:
+                            out.add(b)
+                            todo.append(b)
+            return out
+        if cv_local is not None and cvn is not None and wi is not None:
+            cvn_ok = cv_local in _aliases(cvn)
+            wi_bad = cv_local in _aliases(wi)
+            cvn, wi = (cv_local if cvn_ok else cvn), (cv_local if wi_bad else wi)
         if cv_local is not None:
             obs.check(cvn == cv_local and wi != cv_local, rule, q, 'the crossval flag is passed in the crossval slot (not in the '
                       'weighting slot)', f'crossval flag `{cv_local}` is passed as argument {8 if wi == cv_local else "?"}; slot 9 gets `{cvn}`',
